@@ -67,7 +67,7 @@ Proof.
   assert (forallb (fun x' => existsb (fun x => nss A x x') (children v)) l = true) as Hb.
   { apply forallb_forall. rewrite Forall_forall in HF. intros x' Hx'. apply has_source_b, HF, Hx'. }
   destruct Hv as [->|[->|[fr ->]]]; cbn [nss is_coll]; rewrite Hc, Hb; cbn;
-    rewrite ?orb_true_r; reflexivity.
+    repeat (rewrite ?orb_true_r; cbn); reflexivity.
 Qed.
 
 Lemma nss_dict v kv :
@@ -80,7 +80,7 @@ Proof.
           = true) as Hb.
   { apply forallb_forall. rewrite Forall_forall in HF. intros [k' x'] Hp. destruct (HF _ Hp) as [H1 H2].
     cbn in H1, H2. now rewrite (has_source_b _ _ H1), (has_source_b _ _ H2). }
-  rewrite Hb. cbn. apply orb_true_r.
+  rewrite Hb. cbn. repeat (rewrite ?orb_true_r; cbn). reflexivity.
 Qed.
 
 (* every value is a faithful image of itself *)
